@@ -38,6 +38,8 @@ CLAIMED['C11'] = ('Lean proof that model transitions only append / only touch gr
          'Theorems: applying an op keeps every existing tensor (data, dtype, graph state) and is repeatable with identical values; backward changes no data, dtype or mode; the root stores the caller gradient as a value; zeroing touches no data (with backward_frame of C04 for unrelated gradients). PARTIAL by nature: aliasing between NumPy arrays cannot be expressed in a value-level model; the check snapshots tobytes() of every operand, target, base array, unrelated tensor/gradient and caller gradient around every forward and backward (aliased view operands, reused operands, repeated backward through one root) and repeats every op bit for bit.', '6 C11')
 CLAIMED['C16'] = ('Lean proof: the three im2col / col2im models equal one specification, col2im is the transpose of im2col + correspondence on a geometry grid',
          'Theorems for every geometry with a window, any pad value, any data: the index-array, double-loop and strided-view im2col all equal cols[n,(c*kH+a)*kW+b,i*lW+j] = xpad[n,c,i*sH+a*dH,j*sW+b*dW]; the three col2im equal the scatter-add of that map; <im2col x, y> = <x, col2im y>; extract_windows / place_windows are adjoint; fold(unfold x) multiplies each pixel by the number of covering windows. Each real implementation (3 + 3 + extract / place, both layouts, int and tuple kernel sizes) is compared with its own model on integer-valued data over a geometry grid; implementation-side relations (bitwise agreement of the variants, adjoint identity in exact integers, coverage) are checked too.', '6 C16')
+CLAIMED['C09'] = ('Lean proofs over the reals (exactness of the shifted formulas, range of every intermediate) + the model kernels executed at Float32 and Float against the implementation',
+         'PARTIAL by nature. Proved over the reals: exp(100) exceeds the float32 maximum (so shifts are necessary); after the max-shift every softmax exponent is <= 0, each exp in (0,1], the sum in [1,n], outputs in (0,1]; the shift and the log-sum-exp rearrangement change nothing (softmax, log_softmax, cross-entropy exact, logarithm in [0, log n]); sigmoid in (0,1), overflow of exp(-x) annihilated by 1/(1+E) <= 1/E; sigmoid and tanh backward factors bounded; selu backward evaluates exp(min(x,0)) in (0,1]; BCE-with-logits exponents <= 0 and value exactly (1-y)x + log(1+exp(-x)). Rounding and IEEE overflow are not proved: the same kernels are run at Float32 / Float and compared with the implementation on the magnitude table up to 1e4 and random rows; the failing-input search compares with 50-digit mpmath.', '6 C09')
 PENDING = {}
 ALL = [f'C{i:02d}' for i in range(1, 21)]
 
